@@ -675,12 +675,33 @@ func (p c05) Run(c *core.Ctx, idx int) {
 		var lval *dp.LVal
 		if t.list {
 			lval = &dp.LVal{List: true, V: []string{cand}}
-			if havePre && c.Rand.Intn(2) == 0 {
-				if c.Rand.Intn(2) == 0 {
-					lval.V = []string{v0, cand}
-				} else {
-					lval.V = []string{cand, v0}
+			// members other than the candidate, lowest and highest first where the values are numbers: the candidate is written alone,
+			// next to one member, or between (and before, and after) two members that lie on either side of it
+			var lo, hi string
+			var loR, hiR *big.Rat
+			for _, cd := range cands {
+				if cd == cand || !t.member(cd) {
+					continue
 				}
+				r, ok := new(big.Rat).SetString(cd)
+				if !ok {
+					r = nil
+				}
+				if lo == "" || (r != nil && loR != nil && r.Cmp(loR) < 0) {
+					lo, loR = cd, r
+				}
+				if hi == "" || (r != nil && hiR != nil && r.Cmp(hiR) > 0) || (hi == lo && cd != lo) {
+					hi, hiR = cd, r
+				}
+			}
+			switch k := c.Rand.Intn(6); {
+			case k == 0 && havePre && v0 != cand:
+				lval.V = []string{v0, cand}
+			case k == 1 && havePre && v0 != cand:
+				lval.V = []string{cand, v0}
+			case k >= 2 && k <= 4 && lo != "" && hi != "" && lo != hi:
+				lval.V = [][]string{{lo, cand, hi}, {hi, cand, lo}, {lo, hi, cand}, {cand, lo, hi}}[c.Rand.Intn(4)]
+				c.Count("leaf_list_candidate_among_members")
 			}
 		} else {
 			lval = &dp.LVal{V: []string{cand}}
